@@ -245,7 +245,8 @@ Proof.
   destruct f as [|f]; [discriminate|]. cbn [translate].
   destruct a as [i|l|name args|cs].
   - intros E; inversion E; subst. exists c_atom. split; [reflexivity|]. repeat split.
-  - intros E; inversion E; subst. exists (atom_construct (RLit l)). split; [reflexivity|].
+  - destruct (is_temporal_lit l); [discriminate|].
+    intros E; inversion E; subst. exists (atom_construct (RLit l)). split; [reflexivity|].
     unfold atom_construct, lit_strength. destruct (lit_is_negative l); repeat split.
   - cbn [construct_of]. destruct (select dialect (ROp name args)) as [[c ar]|] eqn:S; [|discriminate].
     destruct (map_opt _ ar); [|discriminate]. intros E; inversion E; subst. exists c. split; [reflexivity|].
@@ -331,7 +332,7 @@ Proof.
       destruct (s_rot s) as [o|] eqn:R; [pose proof (site_rot_prec _ _ _ Hs R)|]; lia. }
   destruct r as [i|l|name args|cs].
   - inversion T; subst. reflexivity.
-  - inversion T; subst. reflexivity.
+  - destruct (is_temporal_lit l); [discriminate|]. inversion T; subst. reflexivity.
   - destruct (select dialect (ROp name args)) as [[c ar]|] eqn:S; [|discriminate]. eapply NODE; eauto.
   - destruct (select dialect (RCase cs)) as [[c ar]|] eqn:S; [|discriminate]. eapply NODE; eauto.
 Qed.
